@@ -74,6 +74,7 @@ class ItextGen:
         self.kw_dl = rng.choice(dl_pool) if rng.random() < 0.3 else None
         self.dl = self.st_dl or self.kw_dl or "default"
         self.counter = 0
+        self.p_blank = rng.choice([0.0, 0.0, 0.05, 0.15])
         self.lists = {}
         self.p_unsuffixed = rng.choice([0.0, 0.2, 0.5])
         self.p_col = rng.choice([0.15, 0.3, 0.5])
@@ -82,6 +83,10 @@ class ItextGen:
         self.osm_lists = {}
 
     def text(self, dyn=False):
+        if not dyn and self.rng.random() < self.p_blank:
+            # whitespace-only cell: reachable through dict / JSON input only (spreadsheet readers drop empty
+            # cells); after cleaning it is an empty-string translation, which still is a translation
+            return self.rng.choice([" ", "  "])
         s = self.rng.choice(TEXTS)
         if s != "-" and self.rng.random() < 0.7:
             # distinct marker texts: a value shown under the wrong language / id / form is noticed
@@ -146,7 +151,7 @@ class ItextGen:
             return rng.choice(cands)
         if other and rng.random() < 0.06:
             return rng.choice(other)  # search / non-search conflict (rejected by pyxform)
-        ln = rng.choice(["yn", "c", "l-1", "a", "opts", "c-1"]) + str(len(self.lists))
+        ln = rng.choice(["yn", "c", "l-1", "a", "opts", "c-1"] + (["it's"] if rng.random() < 0.03 else [])) + str(len(self.lists))
         self.new_list(ln)
         if search:
             self.search_lists.add(ln)
@@ -419,6 +424,9 @@ def extract(survey) -> dict:
     for ln, its in (survey.choices or {}).items():
         opts = []
         for o in its.options:
+            if isinstance(o.extra_data, dict) and "itextId" in o.extra_data:
+                # an extra choices column of that name is written as a second <itextId> child (finding F60)
+                raise Unsupported("choices column named itextId")
             opts.append({"label": txt_json(o.label), "media": media_json(o.media)})
         lists.append({"name": ln, "options": opts})
     root = elem(survey)
